@@ -636,6 +636,8 @@ def check_history(c, impl_out):
         elif kind in ("L", "S"):
             exp = expected_list(snap, comps, tr, o[3] if kind == "L" else None, dirs_only=(kind == "S"))
             want = "ok:[" + ",".join(esc(s) for s in exp) + "]"
+            if ret.startswith(want + " !exists:"):
+                return where + ": listed paths that the filesystem's own exists denies: %s" % ret[len(want) + 1:][:300]
             if ret != want:
                 got = ret
                 return where + ": listing differs from the sorted de-duplicated union of the layers: want %s got %s" % (want[:300], got[:300])
